@@ -4,7 +4,7 @@
    every number of magnetic SLDs; the slices into the lengths/offsets table are the documented ones. *)
 From Coq Require Import ZArith List Bool Arith Lia.
 Import ListNotations.
-From SM Require Import Base.Num C07.Model Gen.C07_code.
+From SM Require Import Base.Num C07.Model Gen.C07_code Gen.C07_combine.
 
 Definition layoutZ (L : Layout) : list Z :=
   map Z.of_nat [p_lo L; p_hi L; er_index L; s_lo L; s_hi L; beta_mode_index L; er_mode_index L; mag_lo L; mag_hi L].
@@ -23,4 +23,13 @@ Proof.
   all: unfold code_layout, layoutZ, layout, b2z, b2n; cbn [map app p_lo p_hi er_index s_lo s_hi beta_mode_index er_mode_index mag_lo mag_hi].
   all: destruct vf, hb, he; destruct (Nat.ltb_spec 0 (3 * n)); destruct (Z.eqb_spec (3 * Z.of_nat n) 0);
     cbn [negb]; try lia; repeat (f_equal; try lia).
+Qed.
+
+(* the final combination as it is WRITTEN in ProductKernel.Iq (Gen/C07_combine.v: the statements from PS to
+   final_result evaluated symbolically for each value of the two flags) is the model's, for every number type *)
+Theorem code_combine_is_model (T : Type) (O : Ops T) scale bg volfrac vp beta F Fsq S shell : combine_translated = true ->
+  code_combine O scale bg volfrac vp beta F Fsq S shell = combine O scale bg volfrac vp beta F Fsq S shell.
+Proof.
+  intros Ht. try solve [vm_compute in Ht; discriminate Ht].
+  all: unfold code_combine, combine; destruct vp, beta; reflexivity.
 Qed.
